@@ -299,6 +299,9 @@ fn run(ctx: &mut Ctx) {
             }
         }
     }
+    let total_cf = ctx.tier.pick(80_000, 1_000_000);
+    let strat_cf = move || class_family_strategy(true, |c: Cfg| c);
+    ctx.generated("class-family", &strat_cf, total_cf, &|s, c, st| case_fn(s, c, st));
     let total_wide = ctx.tier.pick(120_000, 2_000_000);
     let strat_wide = move || wide_short_strategy(|c: Cfg| c, true);
     ctx.generated("wide-short", &strat_wide, total_wide, &|s, c, st| case_fn(s, c, st));
